@@ -145,7 +145,11 @@ pub fn take_until_and_not<'a>(
                 (Some(offset), None) => {
                     Ok(i.take_split(index + offset)).map(|(rem, res)| (rem, res.into_inner()))
                 }
-                (Some(_), Some(offset)) => recursive_until(i, index + offset + 2, t1, t2),
+                // the end tag comes first: a later `however_tag` belongs to some other token
+                (Some(offset), Some(however_offset)) if offset < however_offset => {
+                    Ok(i.take_split(index + offset)).map(|(rem, res)| (rem, res.into_inner()))
+                }
+                (Some(_), Some(offset)) => recursive_until(i, index + offset + t2.len(), t1, t2),
             }
         }
         let res: ParserResult<'_, _> = recursive_until(i, 0, end_tag, however_tag);
